@@ -120,7 +120,7 @@ def lex(data, env=None):
                     j += 1
                 if end < 0:
                     r.line = line
-                    raise _Unspec('unterminated block comment')
+                    raise _Reject('unterminated comment')          # a text that ends inside a comment is not in the language
                 body = data[i + 2:j]
                 toks.append(Tok('C', trim(body), start, line))
                 i = end
@@ -144,7 +144,7 @@ def lex(data, env=None):
                 while True:
                     if i >= n:
                         r.line = line
-                        raise _Unspec('unterminated double-quoted string')
+                        raise _Reject('unterminated double-quoted string')
                     c = data[i]
                     if c == 0x22:
                         i += 1
@@ -170,7 +170,7 @@ def lex(data, env=None):
                     # backslash
                     if i + 1 >= n:
                         r.line = line
-                        raise _Unspec('unterminated double-quoted string (backslash at end of input)')
+                        raise _Reject('unterminated double-quoted string (backslash at end of input)')
                     d = data[i + 1]
                     if d == 0x0A:
                         line += 1
